@@ -243,3 +243,53 @@ func R(tag string, p interface{}) {
 	buf = append(buf, F(tag)+" "+s)
 	mu.Unlock()
 }
+
+// Par calls f(0) .. f(n-1), each from its own fresh goroutine, all released at the same
+// moment, and returns the results in index order. A panic of f is returned as -1.
+func Par(n int, f func(int) int) []int {
+	res := make([]int, n)
+	var wg sync.WaitGroup
+	start := make(chan struct{})
+	for i := 0; i < n; i++ {
+		wg.Add(1)
+		go func(i int) {
+			defer wg.Done()
+			defer func() {
+				if recover() != nil {
+					res[i] = -1
+				}
+			}()
+			<-start
+			res[i] = f(i)
+		}(i)
+	}
+	close(start)
+	wg.Wait()
+	return res
+}
+
+// Seq calls f(0) .. f(n-1) from one fresh goroutine (not the caller's) and returns the results.
+func Seq(n int, f func(int) int) []int {
+	res := make([]int, n)
+	done := make(chan struct{})
+	go func() {
+		defer close(done)
+		for i := 0; i < n; i++ {
+			res[i] = f(i)
+		}
+	}()
+	<-done
+	return res
+}
+
+// Apply calls a callback taking and returning a string, from compiled code.
+func Apply(f func(string) string, s string) string { return f(s) }
+
+// Fold calls f left to right over xs from compiled code.
+func Fold(f func(acc, x int) int, xs []int) int {
+	acc := 0
+	for _, x := range xs {
+		acc = f(acc, x)
+	}
+	return acc
+}
